@@ -259,6 +259,9 @@ def sweep_case(case):
             if kind == 'owntimeout':
                 time.sleep(dur)
                 raise TimeoutError('own-timeout-message')
+            if kind == 'ownmemerr':
+                time.sleep(dur)
+                raise MemoryError('own-memory-error')
             if kind == 'native':
                 time.sleep(dur)                       # one blocking native call
                 return 'the-value'
@@ -293,6 +296,8 @@ def sweep_case(case):
         rec['exc_args'] = repr(e.args)
     except ValueError as e:
         rec['outcome'] = 'own_exc' if e.args == ('own-exception',) else 'other'
+    except MemoryError as e:
+        rec['outcome'] = 'own_exc' if e.args == ('own-memory-error',) else 'other'
     except BaseException as e:
         rec['outcome'] = 'interrupted'
         rec['exc'] = type(e).__name__
